@@ -194,11 +194,11 @@ class SqlStorage(MutableMapping):
             with sqlite3.connect(self.dbfile) as db:
                 names = {}
                 if return_metadata:
-                    for dbid, name, uri in db.execute("SELECT id, name, uri FROM pyro_names WHERE substr(name, 1, ?) = ?", (len(prefix), prefix)).fetchall():
+                    for dbid, name, uri in db.execute("SELECT id, name, uri FROM pyro_names WHERE instr(name, ?) = 1", (prefix,)).fetchall():
                         metadata = {m[0] for m in db.execute("SELECT metadata FROM pyro_metadata WHERE object=?", (dbid,)).fetchall()}
                         names[name] = uri, metadata
                 else:
-                    for name, uri in db.execute("SELECT name, uri FROM pyro_names WHERE substr(name, 1, ?) = ?", (len(prefix), prefix)).fetchall():
+                    for name, uri in db.execute("SELECT name, uri FROM pyro_names WHERE instr(name, ?) = 1", (prefix,)).fetchall():
                         names[name] = uri
                 return names
         except sqlite3.DatabaseError as e:
